@@ -259,6 +259,8 @@ def run(ctx) -> None:
     ctx.guard_as("R09.18", _r13_1)  # "the kid of a key picked from a key set": the private key that encodes and the public key that decodes derive the same kid
     from .c02 import r02_6 as _r02_6
     ctx.guard_as("R09.16", _r02_6)  # "only after the integrity check of the transport passed": every segment of the JWE is accounted for (an encrypted key where none belongs is refused)
+    from .c04 import r04_4 as _r04_4
+    ctx.guard_as("R09.19", _r04_4)  # "over the JWE transport, with the matching key": the iv / tag / epk / p2s the decrypt side reads from the header are the ones this encryption computed - add_header stores them in every branch, also over a same-named member the caller's header already carries (seed C09-s: a header of a decoded token reused for jwt.encode kept its stale A*GCMKW iv / tag)
     ctx.guard(r09_1)
     ctx.guard(r09_2_3)
     ctx.guard(r09_4_5)
